@@ -1,6 +1,7 @@
 package props
 
 import (
+	"strings"
 	"context"
 	"fmt"
 	"net"
@@ -118,6 +119,7 @@ type gwOpts struct {
 	HostSelection string   `json:"host_selection"`
 	Hosts         []string `json:"hosts"`
 	VerifyIP      bool     `json:"verify_client_ip"`
+	ClientNames   bool     `json:"client_name_policy,omitempty"` // in-process only: the gateway is given a client-name policy that refuses names starting with "bad"
 	Redirect      protocol.RedirectFlags
 	IdleTimeout   int `json:"idle_timeout"`
 	TLS           bool `json:"tls,omitempty"` // BIN only: serve TLS with a run-time certificate
@@ -135,6 +137,9 @@ func mkGateway(o gwOpts) *protocol.Gateway {
 	gw := &protocol.Gateway{
 		RedirectFlags: o.Redirect, IdleTimeout: o.IdleTimeout, SmartCardAuth: o.SmartCard, TokenAuth: o.TokenAuth,
 		ReceiveBuf: o.ReceiveBuf, SendBuf: o.SendBuf,
+	}
+	if o.ClientNames {
+		gw.CheckClientName = func(_ context.Context, name string) (bool, error) { return !strings.HasPrefix(name, "bad"), nil }
 	}
 	if o.TokenAuth {
 		gw.CheckPAACookie = security.CheckPAACookie
